@@ -16,24 +16,36 @@ macro "job_side" : tactic => `(tactic| first
       | (intro i; (try simp only [qjobs_setJob, qjobs_setFut, qjobs_setGate, qjobs_setAct, qjobs_setSf, qjobs_setPThr, qjobs_setHolder, qjobs_takeReady,
                              qjobs_dropReady, qjobs_setWoken, qjobs_notify, qjobs_setQState, qjobs_setJobPh]);
            first | done | rfl | (apply qjobs_setQ_keep <;> first | assumption | rfl))
+      -- begun flags: unchanged, or changed only for a job in the hands of a runner
       | (intro i hi;
-         (try simp only [jobOpen_setQ, jobOpen_setFut, jobOpen_setGate, jobOpen_setAct, jobOpen_setSf, jobOpen_setPThr, jobOpen_setHolder, jobOpen_takeReady,
-                         jobOpen_dropReady, jobOpen_setWoken, jobOpen_notify, jobOpen_setQState, jobOpen_pushBack, jobOpen_pushFront, jobOpen_setJobPh] at hi);
+         (try simp only [jobB_setQ, jobB_setFut, jobB_setGate, jobB_setAct, jobB_setSf, jobB_setPThr, jobB_setHolder, jobB_takeReady,
+                         jobB_dropReady, jobB_setWoken, jobB_notify, jobB_setQState, jobB_pushBack, jobB_pushFront, jobB_setJobPh] at hi);
          exact Or.inl hi)
-      | (intro i; (try simp only [jobOpen_setQ, jobOpen_setFut, jobOpen_setGate, jobOpen_setAct, jobOpen_setSf, jobOpen_setPThr, jobOpen_setHolder, jobOpen_takeReady,
-                         jobOpen_dropReady, jobOpen_setWoken, jobOpen_notify, jobOpen_setQState, jobOpen_pushBack, jobOpen_pushFront, jobOpen_setJobPh]);
+      | (intro i; (try simp only [jobB_setQ, jobB_setFut, jobB_setGate, jobB_setAct, jobB_setSf, jobB_setPThr, jobB_setHolder, jobB_takeReady,
+                         jobB_dropReady, jobB_setWoken, jobB_notify, jobB_setQState, jobB_pushBack, jobB_pushFront, jobB_setJobPh]);
          revert i;
          first
-         | (apply ho_setJob_keep <;> first | assumption | exact ⟨rfl, rfl⟩)
-         | (apply ho_setJob_held <;> first | assumption | exact ⟨a, _, h.run1 a _ _ (by rw [hpca, ‹act.pc = _›]; rfl)⟩))
+         | (apply hb_setJob_keep <;> first | assumption | rfl)
+         | (apply hb_setJob_held <;> first | assumption | exact ⟨a, _, h.run1 a _ _ (by rw [hpca, ‹act.pc = _›]; rfl)⟩))
+      -- ended flags are never reset
+      | (intro i hi;
+         (try simp only [jobE_setQ, jobE_setFut, jobE_setGate, jobE_setAct, jobE_setSf, jobE_setPThr, jobE_setHolder, jobE_takeReady,
+                         jobE_dropReady, jobE_setWoken, jobE_notify, jobE_setQState, jobE_pushBack, jobE_pushFront, jobE_setJobPh]);
+         first
+         | exact hi
+         | (revert i; apply he_setJob <;> first | assumption | (intro hk; first | exact hk | rfl)))
+      | rfl
+      | (simp only [jobs_length_setJob]; done)
+      | (simp; done)
       | ((rw [hpca, ‹act.pc = _›]) <;> (simp only [Pc.runningQ, runningQ_ctxPending, Ctx.q]; done))
       | ((rw [hpca, ‹act.pc = _›]) <;> (simp only [Pc.runningQ, runningQ_ctxPending, Ctx.q]; rename_i c _ _; cases c <;> rfl)))
 
 set_option maxHeartbeats 4000000 in
 set_option maxRecDepth 8000 in
-theorem jobInv_stepAct {s s' : State} {a : Nat} {o : Obs} (hh : HolderInv s) (hw : WfInv s) (h : JobInv s)
-    (hs : stepAct s a = some (s', o)) : JobInv s' := by
+theorem fullInv_stepAct {s s' : State} {a : Nat} {o : Obs} (hh : HolderInv s) (hw : WfInv s) (h : FullInv s)
+    (hs : stepAct s a = some (s', o)) : FullInv s' := by
   have hs0 := hs
+  have hx := heldExcl_of hh hw h.job
   unfold stepAct at hs
   split at hs
   · simp at hs
@@ -48,32 +60,33 @@ theorem jobInv_stepAct {s s' : State} {a : Nat} {o : Obs} (hh : HolderInv s) (hw
   split at hs
   all_goals (try (simp at hs; done))
   all_goals (try (first
-      | exact j_rjDequeue hw h act ha hc _ _ (by assumption) hs0
-      | exact j_pdDequeue h act ha hc _ _ (by assumption) hs0
-      | exact j_dqDequeue h act ha hc _ _ (by assumption) hs0
-      | exact j_pdRequeue hh hw h act ha hc _ _ _ (by assumption) hs0
-      | exact j_dqRequeue hh hw h act ha hc _ _ _ _ (by assumption) hs0
-      | exact j_jobDrop hw h act ha hc _ _ _ (by assumption) hs0
-      | exact j_jobDropNotify hw h act ha hc _ _ _ (by assumption) hs0
-      | exact j_siIdle h act ha hc _ _ (by assumption) hs0
-      | exact j_rjPending h act ha hc _ _ _ (by assumption) hs0
-      | exact j_rjParkCheck h act ha hc _ _ _ (by assumption) hs0
-      | exact j_syDecide h act ha hc _ _ (by assumption) hs0
-      | exact j_tsDecide h act ha hc _ _ (by assumption) hs0
-      | exact j_dsPush h act ha hc _ _ (by assumption) hs0
-      | exact j_sdPush hh h act ha hc _ _ (by assumption) hs0
-      | exact j_sbPush h act ha hc _ _ (by assumption) hs0
-      | exact j_stSpawn h act ha hc _ _ (by assumption) hs0
-      | exact j_sbPrune h act ha hc _ (by assumption) hs0
-      | exact j_ptPop h act ha hc _ (by assumption) hs0))
+      | exact j_rjDequeue hw h hx act ha hc _ _ (by assumption) hs0
+      | exact j_pdDequeue h hx act ha hc _ _ (by assumption) hs0
+      | exact j_dqDequeue h hx act ha hc _ _ (by assumption) hs0
+      | exact j_pdRequeue hh hw h hx act ha hc _ _ _ (by assumption) hs0
+      | exact j_dqRequeue hh hw h hx act ha hc _ _ _ _ (by assumption) hs0
+      | exact j_jobDrop hw h hx act ha hc _ _ _ (by assumption) hs0
+      | exact j_jobDropNotify hw h hx act ha hc _ _ _ (by assumption) hs0
+      | exact j_siIdle h hx act ha hc _ _ (by assumption) hs0
+      | exact j_rjPending h hx act ha hc _ _ _ (by assumption) hs0
+      | exact j_rjParkCheck h hx act ha hc _ _ _ (by assumption) hs0
+      | exact j_syDecide hh hw h hx act ha hc _ _ (by assumption) hs0
+      | exact j_tsDecide hh hw h hx act ha hc _ _ (by assumption) hs0
+      | exact j_dsPush h hx act ha hc _ _ (by assumption) hs0
+      | exact j_sdPush hh h hx act ha hc _ _ (by assumption) hs0
+      | exact j_sbPush h hx act ha hc _ _ (by assumption) hs0
+      | exact j_stSpawn h hx act ha hc _ _ (by assumption) hs0
+      | exact j_sbPrune h hx act ha hc _ (by assumption) hs0
+      | exact j_ptPop h hx act ha hc _ (by assumption) hs0))
   all_goals (try dsimp only at hs)
   all_goals (repeat' split at hs)
   all_goals (try (simp at hs; done))
   all_goals (try (simp only [Option.some.injEq, Prod.mk.injEq] at hs; obtain ⟨rfl, _⟩ := hs))
   all_goals (first
-      | ((refine JobInv.frame h ?_ ?_ ?_ ?_ ?_) <;> job_side)
-      | ((refine JobInv.frame_setAct h ?_ ?_ ?_ ?_ ?_) <;> job_side)
+      | ((refine FullInv.frame h hx ?_ ?_ ?_ ?_ ?_ ?_ ?_) <;> job_side)
+      | ((refine FullInv.frame_setAct h hx ?_ ?_ ?_ ?_ ?_ ?_ ?_) <;> job_side)
       | skip)
+
 
 
 end Desync
